@@ -442,6 +442,43 @@ def x10(ctx, rid):
     ctx.ok(rid, 'scan', '', '%d client-cancellable bodies write fields through an exclusive guard; %d field pairs split by a suspension point' % (n, pairs), nontrivial=False, queries=max(1, n))
 
 
+def x11(ctx, rid):
+    """an `in progress` count kept in shared state is not advanced before and taken back after a suspension point by plain
+    statements of a client-cancellable body: a future dropped at the await never takes it back, and whoever waits for the
+    count to reach zero (a dump, a close) waits for ever while holding the storage locks"""
+    prog = ctx.prog
+    cc, roots = client_cancellable(prog)
+    n = 0
+    bad = 0
+    UP = ('fetch_add',)
+    DOWN = ('fetch_sub',)
+    for f in prog.fns.values():
+        if not f.is_coroutine or (f.id not in cc and f.root not in cc):
+            continue
+        ups, downs = [], []
+        for c in f.calls:
+            if c.bb not in f.reachable() or not c.path.startswith('std::sync::atomic::Atomic') or c.name not in UP + DOWN:
+                continue
+            fld = prims.receiver_field(f, c)
+            if not fld:
+                continue
+            (ups if c.name in UP else downs).append((c, fld))
+        ry = core.real_yields(prog, f) if (ups and downs) else []
+        for (u, fu) in ups:
+            for (d, fd) in downs:
+                if fu != fd or d.bb not in f.reach_from(f.after(u.bb)):
+                    continue
+                n += 1
+                key = 'count-taken-back-by-guard|%s|%s' % (f.root, fu)
+                between = [y for y in ry if y in f.reach_from(f.after(u.bb), avoid_exit=[d.bb]) and d.bb in f.reach_from([y])]
+                if between:
+                    bad += 1
+                    ctx.bad(rid, key, u.where(), 'the shared counter `%s` is incremented here and decremented by a plain statement after a suspension point (%s): a client that drops the future in between leaves the count raised for ever, and every waiter for zero (index dump, close) hangs' % (fu, f.where(between[0])))
+                else:
+                    ctx.ok(rid, key, u.where(), 'no suspension point between increment and decrement', nontrivial=False)
+    ctx.ok(rid, 'scan', '', '%d increment / decrement pairs on shared atomic counters in client-cancellable bodies, %d split by a suspension point' % (n, bad), nontrivial=False, queries=max(1, n))
+
+
 RULES = [
     Rule('C14.X1', 'reservation of a file offset and the OS write consuming it lie in non-coroutine bodies run by a blocking runner', x1, 4),
     Rule('C14.X2', 'no suspension point between the completed record append and its index push', x2, 2),
@@ -452,5 +489,6 @@ RULES = [
     Rule('C14.X8', 'in a running session an index is rebuilt from the blob file only on the Err of loading the index file', x8, 1),
     Rule('C14.X9', 'every WritableDataCreator builds its result from the offset reserved inside the non-cancellable append closure (C08.D8 instances)', x9, 1),
     Rule('C14.X10', 'no two fields of a value held under one exclusive guard are written on the two sides of a suspension point in a client-cancellable body', x10, 1),
+    Rule('C14.X11', 'no shared atomic counter is raised before and lowered after a suspension point by plain statements of a client-cancellable body', x11, 1),
     Rule('C14.X4', 'no RAII guard whose Drop undoes a counter reservation is live across a suspension point of a client-cancellable future', x4, 1),
 ]
